@@ -4,6 +4,7 @@ import (
 	"encoding/json"
 	"fmt"
 	"math"
+	"strings"
 	"sync/atomic"
 
 	"verif/harness"
@@ -91,6 +92,28 @@ func checkC16(r *harness.Run) harness.Coverage {
 	docs := univ.Values(1, 2, univ.Js(univ.A6...), []string{"a", "b"})
 	docs = append(docs, univ.Js(`[[],[[]],{}]`, `{"a":[1,2,3],"b":["a","b"]}`, `{"a":[{"a":1,"b":"x"},{"a":2,"b":"y"}],"b":{"a":{},"b":[]}}`, `[0.5,-3,1e10,1e-10]`, `{"a":"é😀","b":"\u0000\""}`,
 		`{"a":"Infinity","b":"nan"}`, `["inf","-inf","NaN","+Inf","1e999","-1e999","1","x"]`, `{"a":["Infinity",1],"b":{"a":"-Infinity"}}`, `{"a":{},"b":[]}`, `{"a":[],"b":{}}`)...)
+	// arrays above the size thresholds of "large input" fast paths, and nothing that survives a filter
+	bigObjs := make([]interface{}, 70)
+	bigNums := make([]interface{}, 70)
+	for i := range bigObjs {
+		bigObjs[i] = map[string]interface{}{"a": float64(i % 5)}
+		bigNums[i] = float64(i)
+	}
+	docs = append(docs, map[string]interface{}{"a": bigObjs, "b": bigNums}, bigNums)
+	// literals at the edge of the number range in operand positions
+	var edge []exprCase
+	for _, lit := range []string{"`1e400`", "`-1e400`", "`[1, 2, 1e309]`", "`{\"limit\": 2e308}`", "`1e308`", "`-1e308`", "`9007199254740993`", "`1e-400`"} {
+		for _, ctx := range []string{"%s", "a || %s", "[%s, a]", "{x: %s}", "to_number(%s)", "not_null(a.b, %s)", "%s | @"} {
+			text := strings.Replace(ctx, "%s", lit, -1)
+			if toks, err := model.Lex(text); err == nil {
+				if ast, _, perr := model.Parse(toks); perr == nil {
+					edge = append(edge, exprCase{toks, text, ast})
+				}
+			}
+		}
+	}
+	stEdge := conform(r, edge, docs[:20], conformOpts{skipValue: true, onResult: on})
+	_ = stEdge
 	for _, part := range []struct {
 		f    *univ.Fragment
 		maxW int
